@@ -408,10 +408,19 @@ pub fn display_survives_failing_writer<T: std::fmt::Display>(t: &T, expect: &str
             return Err(format!("after a failed write into a {}-byte sink the next to_string() gives {:?} instead of {:?}", cap, again, expect));
         }
     }
-    // width / alignment flags must not change the text beyond padding
-    let padded = format!("{:>1}", t);
-    if padded != expect {
-        return Err(format!("format!(\"{{:>1}}\") gives {:?} instead of {:?}", padded, expect));
+    // width / alignment / sign / zero flags may pad the whole text with blanks, nothing else
+    for (spec, got) in [
+        (">1", format!("{:>1}", t)),
+        (">40", format!("{:>40}", t)),
+        ("<40", format!("{:<40}", t)),
+        ("^45", format!("{:^45}", t)),
+        ("012", format!("{:012}", t)),
+        ("+", format!("{:+}", t)),
+        ("#", format!("{:#}", t)),
+    ] {
+        if got.trim_matches(' ') != expect {
+            return Err(format!("format!(\"{{:{}}}\") gives {:?}; apart from blank padding it should be {:?}", spec, got, expect));
+        }
     }
     Ok(())
 }
